@@ -316,3 +316,49 @@ def register(reg, prog):
                  loop_steps={0: [de_step_out], 1: [de_step_in], 2: [de_step_call]},
                  local_types={'stoppers': List(CALLABLE)}, hints={'[]': CALLABLE},
                  at_exit=tde_exit)
+    _register_shutdown(reg, prog)
+
+
+def _register_shutdown(reg, prog):
+    """TokenManager.shutdown (C18): every server-side request is stopped once, every pending client request fails once with
+    LibraryShutdown, and both registries are closed BEFORE the lower layers are shut down (so that nothing is accepted while
+    they close)."""
+    from contracts.util import evs, B, Ev
+    MSG = Ref('Message')
+    F = reg.classes['TokenManager'].fields
+
+    def stop_step(ex, s, snap):
+        new = s.log[len(snap.log):]
+        ev = lambda t, **kw: ex.truth(s, ex.spec_val(s, t, env=dict(ex.visible_env(s), **kw)))
+        g = [('each-server-side-request-is-stopped-once', B(len(new) == 1 and new[0][0] == 'call'))]
+        for e in new:
+            if e[0] == 'call':
+                g.append(('its-own-stopper', e[1] == ex.spec_val(s, 'stop').t))
+        g.append(('entry-retired', ev('key not in self.incoming_requests and len(self.incoming_requests) == head(len(self.incoming_requests)) - 1')))
+        return g
+
+    def fail_step(ex, s, snap):
+        new = s.log[len(snap.log):]
+        ev = lambda t, **kw: ex.truth(s, ex.spec_val(s, t, env=dict(ex.visible_env(s), **kw)))
+        g = [('each-pending-request-fails-once', B(len(new) == 1 and new[0][0] == 'pipe_add_exception'))]
+        for e in new:
+            if e[0] == 'pipe_add_exception':
+                g.append(('the-request-taken-out-of-the-registry', e[1].t == ex.spec_val(s, 'request').t))
+                g.append(('with-library-shutdown', B(ex.issub(e[2].cls, 'aiocoap.error:LibraryShutdown'))))
+        g.append(('entry-retired', ev('key not in self.outgoing_requests and len(self.outgoing_requests) == head(len(self.outgoing_requests)) - 1')))
+        return g
+
+    def closed_before_lower_layers(ex, s, entry, env):
+        ev = Ev(ex, s, entry, env)
+        return [('no-request-is-accepted-while-the-lower-layers-close', ev('self.outgoing_requests is None and self.incoming_requests is None'))]
+
+    def sd_exit(ex, s, entry, env, result):
+        ev = Ev(ex, s, entry, env)
+        return [('registries-closed', ev('self.outgoing_requests is None and self.incoming_requests is None'))]
+
+    reg.externals['TokenInterfaceI.shutdown'] = lambda ex, st, args, kw, node: (st.log.append(('ti_shutdown', args[0])), [(st, VNone())])[1]
+    reg.contract(TM + '.shutdown', properties=['C18'], requires=['tm_wf(self)'],
+                 raises={'CancelledError': MAY, 'Exception': MAY}, modifies=['*'], at_exit=sd_exit,
+                 loop_steps={0: [stop_step], 1: [fail_step]},
+                 awaits={0: {'havoc': True, 'owned': ['self'], 'check': closed_before_lower_layers, 'raises': ['builtins:Exception']}},
+                 local_types={'stop': CALLABLE, 'request': Ref('PipeI'), 'key': OKEY})
